@@ -97,8 +97,13 @@ func (r *m3Run) drain(commonWant map[string]string) {
 			continue
 		}
 		// what the sender is known to have emitted is waited for (loopback delivery may lag on a busy machine)
-		dgs := s.drainN(int(r.emits.Load())-r.received[si], 300*time.Millisecond)
+		want := int(r.emits.Load()) - r.received[si]
+		dgs := s.drainN(want, 300*time.Millisecond)
 		r.received[si] += len(dgs)
+		if len(dgs) < want {
+			// an emit that produced no datagram here (refused by the transport): written off, not waited for again
+			r.received[si] += want - len(dgs)
+		}
 		for _, d := range dgs {
 			b, _, ok, why := decodeBatch(d, r.sc.Compact)
 			ev := M{"e": "emit", "dest": si + 1, "len": len(d), "ok": ok, "why": why, "mets": []M{}, "common_ok": true, "alone_ok": true, "nall": 0}
